@@ -597,3 +597,96 @@ def r10j_filter_sees_recorded_module(ctx):
                                                                                    len(at_test & at_rec), len(at_rec), f.local_name(L)))
     r.floor("filters on recorded import module strings", n, 1)
     return r
+
+
+# ------------------------------------------------------------------------------------------ R10h: the "already analysed" marker
+def r10h_analysed_marker(ctx):
+    r = Result("R10h", "scan-time code that decides by `contains_key` on a per-file map whether a file still has to be analysed "
+                       "tests a map the analysis writes for EVERY file it analyses (an insert that lies on every path through "
+                       "the analysis entry): a map that only has entries for files with fixtures / usages / imports makes the "
+                       "scan analyse an open document again from disk")
+    db = _db(ctx)
+    crate = ctx.bin
+    E = db.analysis_entry()
+    if E is None:
+        r.anchor_missing("analysis entry", "not found by role")
+        return r
+    Ev = ctx.inl(E, depth=2, max_blocks=120, tag="r10h")
+    pdom = Ev.postdominators()
+    complete = set()
+    from ..locks import classify_call
+    for bb, c in Ev.calls():
+        k = classify_call(c)
+        if k is None or k[1] != "insert" or not c["args"]:
+            continue
+        ids, why = db.lm.identity(Ev, c["args"][0])
+        if len(ids) == 1 and not why and bb in pdom.get(0, set()):
+            complete.add(next(iter(ids)).split(".")[-1])
+    r.counts["written_for_every_analysed_file"] = ",".join(sorted(complete))
+    fam = db.cg.reach([E.id])
+    from .r3 import handler_roots
+    query_fns = db.cg.reach([h.id for h in handler_roots(crate)], include_spawn=False)
+    written_by_analysis = {m for m, ops in db.ops_by_map.items() if any(op.mode == "X" and (op.fn.root in fam or op.fn.id in fam) for op in ops)}
+    n = 0
+    for m, ops in sorted(db.ops_by_map.items()):
+        if db.maps[m][0] != "std::path::PathBuf" or m not in written_by_analysis:
+            continue
+        for op in ops:
+            if op.method != "contains_key":
+                continue
+            f = op.fn
+            # scan-time code: it leads to the analysis itself, or it is not reachable from a request handler (without spawn)
+            if f.root in fam or f.id in fam or (E.id not in db.cg.reach([f.root]) and f.root in query_fns):
+                continue
+            n += 1
+            key = "R10h|%s|%s.contains_key" % (f.root, m)
+            if m in complete:
+                r.ok(sample={"test": key})
+            elif key in REVIEWED:
+                r.review(key, REVIEWED[key])
+            else:
+                r.violate(key, "%s decides at %s by `%s.contains_key()`; the analysis does not write `%s` for every file it analyses "
+                               "(complete maps: %s)" % (f.root, crate.span_str(op.call["span"]), m, m, sorted(complete)))
+    r.floor("already-analysed tests in scan-time code", n, 2)
+    r.floor("maps written for every analysed file", len(complete), 1)
+    return r
+
+
+# ------------------------------------------------------------------------------------------ R10k: where the configuration comes from
+def r10k_config_location(ctx):
+    from .r3 import _slice_calls
+    r = Result("R10k", "the configuration that steers discovery (exclude patterns are matched against paths relative to the workspace "
+                       "root) is read from the workspace root's own pyproject.toml: the path handed to read_to_string in the loader "
+                       "(found by role: joins the literal \"pyproject.toml\" and reads it) is not derived through ancestors() / "
+                       "parent(): a file found above the root belongs to another project and its patterns are relative to another "
+                       "directory")
+    crate = ctx.bin
+    n = 0
+    for f in crate.real_fns():
+        if f.kind not in ("fn", "method"):
+            continue
+        fam = [g for g in crate.real_fns() if g.root == f.id]
+        lits = set()
+        for g in fam:
+            for bb, c in g.calls():
+                if re.search(r"path::Path::join$", c.get("res") or ""):
+                    for a in c["args"][1:]:
+                        lits |= literals_reaching(g, a)
+        if "pyproject.toml" not in lits:
+            continue
+        reads = [(bb, c) for bb, c in f.calls() if re.search(r"std::fs::read_to_string", c.get("res") or "")]
+        if not reads:
+            continue
+        n += 1
+        key = "R10k|%s" % f.id
+        calls = set()
+        for bb, c in reads:
+            for a in c["args"]:
+                calls |= _slice_calls(crate, f, a)
+        up = sorted(x.split("::")[-1] for x in calls if re.search(r"path::Path::(ancestors|parent)$", x or ""))
+        if up:
+            r.violate(key, "%s looks for pyproject.toml through %s: a configuration above the workspace root is applied to it" % (f.id, up))
+        else:
+            r.ok(sample={"config_loader": f.id})
+    r.floor("configuration loaders", n, 1)
+    return r
